@@ -5,7 +5,7 @@ Observed at: textDocument/publishDiagnostics of the built binary and AnalyzedSou
 import random
 from ..core import Adaptor, Part, pmap, NCPU, server_bin, adaptor_bin
 from ..client import Server, ServerDied, Timeout, FrameError
-from .. import gen, layout, lspmodel
+from .. import gen, layout, lspmodel, feat
 from ..gen import (mk_var, mk_int, mk_bin, mk_paren, mk_index, mk_assign, mk_call, mk_if, mk_while, mk_empty, mk_named_type, mk_array_type,
                    mk_typedecl, mk_param, mk_vardecl, mk_proc, INT, ArrT, BUILTINS, first_tok, last_tok)
 
@@ -193,9 +193,14 @@ def D_main_not_a_procedure(P, rng):
 
 def D_redeclaration_as_procedure(P, rng):
     """a second declaration of an existing procedure; its body uses its own locals (they must not be reported)"""
-    orig = rng.choice(P.procs + P.types)
     v = mk_vardecl("own", mk_named_type("int"), INT)
     body = [mk_assign(mk_var("own"), mk_int(1))] if rng.random() < .7 else []
+    if rng.random() < .35:
+        # ... or of a predefined procedure, which may then stand anywhere, also in front of everything else
+        name = rng.choice(["printi", "printc", "readi", "readc", "exit", "time", "clearAll", "setPixel", "drawLine", "drawCircle"])
+        d = mk_proc(name, [], [v] if body else [], body)
+        return d, 0, "redeclaration of `%s` as procedure" % name, d.name_tok
+    orig = rng.choice(P.procs + P.types)
     d = mk_proc(orig.name, [], [v] if body else [], body)
     return d, _index_of(P, orig) + 1, "redeclaration of `%s` as procedure" % orig.name, d.name_tok
 
@@ -307,7 +312,7 @@ class Obs:
         s.n += 1
         uri = "file:///c03/doc%d.spl" % s.n
         srv = s.server()
-        srv.drop_notes(); srv.open(uri, text)
+        srv.drop_notes(); feat.arrive(srv, uri, text, s.n)        # a third of the documents are reached by an edit
         d = srv.diags(uri)
         srv.close_doc(uri)
         lsp = None if d is None else [(x["message"].strip(), x["range"]) for x in d]
